@@ -28,6 +28,7 @@ import (
 	"google.golang.org/grpc/codes"
 	"google.golang.org/grpc/metadata"
 	"google.golang.org/grpc/status"
+	"google.golang.org/protobuf/types/known/durationpb"
 	"google.golang.org/protobuf/types/known/emptypb"
 	"gopkg.in/yaml.v2"
 )
@@ -373,9 +374,42 @@ type grpcDNS struct {
 	backendpb.UnimplementedDNSServiceServer
 }
 
-func (*grpcDNS) GetDNSProfiles(_ *backendpb.DNSProfilesRequest, s grpc.ServerStreamingServer[backendpb.DNSProfile]) error {
+// The profile the stub backend knows: one device recognised by its linked IP
+// (a loopback address the script can send from), with a custom rate limit for
+// that address.  It is delivered by full synchronisations only; an incremental
+// one (sync_time set, i.e. after a restart from the profile cache) gets nothing,
+// as from a backend where nothing has changed.
+const (
+	stubProfileID = "c20prof1"
+	stubDeviceID  = "c20dev01"
+	srcProfileDev = "127.0.2.1"
+)
+
+func (*grpcDNS) GetDNSProfiles(req *backendpb.DNSProfilesRequest, s grpc.ServerStreamingServer[backendpb.DNSProfile]) error {
 	s.SetTrailer(metadata.Pairs("sync_time", strconv.FormatInt(time.Now().UnixMilli(), 10)))
-	return nil
+	if st := req.GetSyncTime(); st != nil && !st.AsTime().IsZero() && st.AsTime().Unix() > 0 {
+		return nil
+	}
+	return s.Send(&backendpb.DNSProfile{
+		DnsId:            stubProfileID,
+		FilteringEnabled: true,
+		QueryLogEnabled:  true,
+		SafeBrowsing:     &backendpb.SafeBrowsingSettings{},
+		Parental:         &backendpb.ParentalSettings{},
+		RuleLists:        &backendpb.RuleListsSettings{},
+		Devices: []*backendpb.DeviceSettings{{
+			Id:               stubDeviceID,
+			Name:             "c20 device",
+			FilteringEnabled: true,
+			LinkedIp:         net.ParseIP(srcProfileDev).To4(),
+		}},
+		FilteredResponseTtl: durationpb.New(10 * time.Second),
+		RateLimit: &backendpb.RateLimitSettings{
+			Enabled:    true,
+			Rps:        1000,
+			ClientCidr: []*backendpb.CidrRange{{Address: net.ParseIP("127.0.2.0").To4(), Prefix: 24}},
+		},
+	})
 }
 
 func (*grpcDNS) SaveDevicesBillingStat(s grpc.ClientStreamingServer[backendpb.DeviceBillingStat, emptypb.Empty]) error {
